@@ -87,12 +87,20 @@ def _workloads(task, note):
     for i in range(task.get("calls", 0)):
         name = O.TYPES[i % len(O.TYPES)]
         box, params = gen.gen_call(rnd, name, {"max_arity": 6, "width": 4, "allow_all_zero": True})
+        if i % 4 == 3 and name in gen.STRETCHABLE:
+            # the same shapes on values far from zero / domains up to ~10^9 wide (narrow scratch arrays, 16-bit offsets)
+            box, params = gen.stretch_call(rnd, name, box, params)
+            counts["calls_on_wide_domains"] = counts.get("calls_on_wide_domains", 0) + 1
         ctx = {"call": {"name": name, "box": box, "params": params}}
         progress.mark(ctx)
         try:
             M.run_propagator(name, box, params)
         except IndexError as e:
             note(ctx, "IndexError: " + str(e)[:150])
+        except OverflowError as e:
+            # a value of the contract's range that does not fit the element type of a scratch array: the compiled build
+            # stores it wrapped and indexes with it
+            note(ctx, "OverflowError (value does not fit a scratch array's element type): " + str(e)[:150])
         counts["calls"] += 1
         note(ctx)
         if (i & 255) == 0 and time.time() > deadline:
